@@ -2898,8 +2898,10 @@ fn c11_server(input: &Input, obs: &mut Obs) -> Result<(), Fail> {
                     w.send_raw(c, &burst);
                     w.settle(300, true);
                     let a = audit_client(&w, c)?;
-                    if a.n400 != n400_before + m {
-                        return Err(("burst-400-count".into(), format!("{} server reads of malformed input were answered with {} 400 responses", m, a.n400 - n400_before)));
+                    // (how many 400s a long malformed burst earns is not promised; at least one is
+                    // what "answered with 400" presupposes)
+                    if a.n400 < n400_before + 1 {
+                        return Err(("no-400".into(), format!("{} bytes of malformed input were not answered with a 400", 1024 * m)));
                     }
                     if w.clients[c].yielded[y0..] != js[..] {
                         return Err((
